@@ -257,7 +257,7 @@ def handle (stream : String) (args : List String) : String :=
     | none => "bad-args"
   | "rxobs", h :: tab =>
     -- what a data receiver attached to the transport observes: `handle_packet` forwards payloads whose
-    -- first byte is ≥ 2, indexes `packet[0]` (panics on an empty payload) and treats the rest as STUN
+    -- first byte is ≥ 2, ignores an empty payload (`packet.first()` is `None`; fix d7dd60f, was a `packet[0]` panic) and treats the rest as STUN
     let chans : List (Nat × Addr) := tab.filterMap (fun t =>
       match t.splitOn "=" with
       | [c, a] => match c.toNat?, parseOptAddr a with
@@ -266,7 +266,7 @@ def handle (stream : String) (args : List String) : String :=
       | _ => none)
     let fwd (peer : Addr) (d : Bytes) : String :=
       match d with
-      | [] => "panic"
+      | [] => "none"
       | b :: _ => if b < 2 then "none" else s!"fwd {showAddr peer} {hex d}"
     match unhex h with
     | some b =>
